@@ -33,6 +33,6 @@ Violated(e) ==
                              THEN {"C12", "stop_edge_only"}
                         ELSE {"C12"}
 TInit == l = 1
-TNext == l <= Len(Trace) /\ PrintT(<<"J", l, Trace[l].id, Violated(Trace[l])>>) /\ l' = l + 1
+TNext == l <= Len(Trace) /\ PrintT(ToString(<<"J", l, Trace[l].id, Violated(Trace[l])>>)) /\ l' = l + 1
 Accepted == TLCGet("stats").diameter - 1 = Len(Trace)
 =============================================================================
